@@ -23,7 +23,10 @@ RULE = ('one run = 2-4 committer tasks doing read-modify-write on shared '
         'declare readCurrent dependencies) through Connections, or calling '
         'tpc_begin/store/tpc_vote/tpc_finish directly with serials loaded '
         'earlier, on FileStorage (simulated disk), MappingStorage and '
-        'DemoStorage; interleaved by the seeded scheduler at lock and file '
+        'DemoStorage, with a per-run clock tick (incl. a stalled clock: '
+        'consecutive ids) and, on FileStorage, a client that undoes one of '
+        'its commits while others hold copies derived from it; '
+        'interleaved by the seeded scheduler at lock and file '
         'I/O operations and, in the fine arm, at source lines inside '
         'ZODB; oracle: outcomes are success/ConflictError/'
         'ReadConflictError only, every committed revision extends the log '
